@@ -1,18 +1,1090 @@
-use emmylua_code_analysis::{EmmyLuaAnalysis, Emmyrc, file_path_to_uri};
+//! C10 bounded witness search (whole database): "Once a file is removed from the analysis, either deleted or closed
+//! when it is not on disk, no result refers to it ... Its memory is also released."
+//!
+//!   replay search [seed] [count] [--ignore <substr>]...   generated workspaces; prints `FOUND ...` and exits 1 on the
+//!                                                         first violation, exit 0 + one summary line otherwise
+//!   replay case <k> [seed] [--ignore <substr>]...         re-run generated case k (prints the workspace, -v style)
+//!   replay list                                           the building blocks
+//!   replay dir <dir> [batch|seq] [--ignore <substr>]...   a hand-written workspace (<dir>/*.lua, <dir>/lib/*.lua)
+//! exit 2 = a scenario could not be set up (file id / module missing, analysis panicked while *adding*).
+//!
+//! Decides nothing: a hit is a concrete history of public-API calls on the REAL crate after which the real database
+//! still mentions a removed file.  Needs no hook: `DbIndex` and every index derive `Debug`; the oracles read the pretty
+//! `{:#?}` dump of `analysis.compilation.get_db()`.
+//!
+//! Canonical form of a dump: every `X {\n id: N,\n }` triple is collapsed to `X(N)` (so a file id is the single token
+//! `FileId(N)`), every line is paired with the dotted chain of the *named* fields that enclose it
+//! (`types_index.supers`, `property_index.property_owners_map`, ...), and the result is compared as a multiset of
+//! (field path, line) -- independent of hash-map iteration order.
+//!
+//! Oracles, for a file F with id N:
+//!   TRACE     after `remove_file_by_uri(F)`: no line of the dump contains `FileId(N)`, no line of `vfs.file_id_map` /
+//!             `vfs.file_path_map` carries N or F's path, no line anywhere contains F's path.      (no exclusion at all)
+//!   NEVER-HAD analyse the workspace without F; add F; remove F: the canonical dump equals the one before adding F.
+//!   GROWTH    remove F; then 5 x (add F; remove F): the canonical dump after every round equals the one after the
+//!             first removal (and TRACE holds for every fresh id F received).
+//!   RESTORE   (C08 flavour) remove F; add F again: the canonical dump equals the one before the removal, after renaming
+//!             F's new id to the old one.  Only meaningful when the first analysis saw all files at once (mode batch);
+//!             in mode seq it is skipped (a file analysed before its dependencies existed legitimately differs).
+//! Places that legitimately differ, excluded from the three *comparisons* (never from TRACE), each by exact field:
+//!   vfs.file_data  lines `None,`          the id allocator: an id is an index into this vector and is never reused, a
+//!                                         removed file leaves its (empty) slot
+//!   modules_index.id_counter, property_index.id_count
+//!                                         monotonic id allocators
+//!   vfs.node_cache.*                      rowan's green-node interner shared by all parses (tokens / small nodes, no file
+//!                                         ids); it never shrinks -- reported as an observation, not searched
+//!   numbers inside LuaPropertyId(..) / ModuleNodeId(..) are masked (allocator-dependent), for RESTORE also the bare
+//!   u32 ids of vfs.file_id_map / vfs.file_path_map are renamed new -> old.
+use emmylua_code_analysis::{EmmyLuaAnalysis, Emmyrc, FileId, file_path_to_uri};
 use std::path::PathBuf;
 use std::sync::Arc;
-fn main() {
+
+const ROOT: &str = "/vp_c10t";
+const FILE_NAMES: [&str; 4] = ["a.lua", "b.lua", "lib/c.lua", "d.lua"];
+const MODULE_NAMES: [&str; 4] = ["a", "b", "lib.c", "d"];
+
+// ------------------------------------------------------------------------------------------------ building blocks
+/// One role of a block: `head` goes to the top of the file (file-level tags), `body` into the file body.
+/// `{m0}`, `{m1}`, `{m2}` are replaced by the module name of the file that received role 0 / 1 / 2.
+struct Part {
+    head: &'static str,
+    body: &'static str,
+}
+struct Block {
+    name: &'static str,
+    parts: &'static [Part],
+}
+const fn p(body: &'static str) -> Part {
+    Part { head: "", body }
+}
+
+const BLOCKS: &[Block] = &[
+    Block { name: "partial-class-two-supers", parts: &[
+        p("---@class (partial) PA: PSuper0\n---@field px integer\nlocal PA = {}\nfunction PA.p0() end\n"),
+        p("---@class (partial) PA: PSuper1\n---@field py string\nlocal PA2 = {}\n---@type PA\nlocal pa_inst\nlocal pa_b0 = pa_inst.base0\nlocal pa_px = pa_inst.px\n"),
+        p("---@class PSuper0\n---@field base0 integer\n---@class PSuper1\n---@field base1 integer\n"),
+    ] },
+    Block { name: "duplicate-class-two-supers", parts: &[
+        p("---@class DA: DSuper0\n---@field dx integer\n"),
+        p("---@class DA: DSuper1\n---@field dy string\n---@class DSuper0\n---@field dbase0 integer\n---@class DSuper1\n---@field dbase1 integer\n---@type DA\nlocal da_inst\nlocal da_v = da_inst.dbase0\n"),
+    ] },
+    Block { name: "alias-enum-generic", parts: &[
+        p("---@alias AL1 integer|string\n---@alias AL2\n---| \"al_a\" # first\n---| \"al_b\"\n---@enum EN1\nEN1 = { A = 1, B = 2 }\n---@enum (key) EN2\nlocal EN2 = { k1 = 1, k2 = 2 }\n---@class GC<T>\n---@field v T\n---@generic T\n---@param x T\n---@return GC<T>\nfunction mkgc(x) end\n"),
+        p("---@type AL1\nlocal al\n---@type AL2\nlocal al2 = \"al_a\"\n---@type EN1\nlocal en = EN1.A\n---@type GC<integer>\nlocal g = mkgc(1)\nlocal gv = g.v\n---@class GD<K>: GC<K>\n---@field w K\n"),
+    ] },
+    Block { name: "members-global-class", parts: &[
+        p("---@class MC\nMC = {}\nfunction MC.f() return 1 end\nMC.x = 1\n---@param self MC\nfunction MC:m0() return self.y end\n"),
+        p("function MC.g() return \"s\" end\nMC.y = \"s\"\nfunction MC:h() return self.x end\nMC.x = 2\n"),
+        p("local mc_x = MC.x\nlocal mc_y = MC.y\nlocal mc_f = MC.f()\nlocal mc_g = MC.g()\n"),
+    ] },
+    Block { name: "members-doc-fields", parts: &[
+        p("---@class FC\n---@field fa integer\n---@field fm fun(a: integer): string\n---@field [string] boolean\n"),
+        p("---@class FC\n---@field fb string\n---@field fa integer\n---@type FC\nlocal fc\nlocal fc_a = fc.fa\nlocal fc_b = fc.fb\nfc.late = 1\n"),
+    ] },
+    Block { name: "members-global-table", parts: &[
+        p("GT = {}\nGT.a = 1\nfunction GT.m() end\nGT.sub = {}\nGT.sub.deep = 1\n"),
+        p("GT.b = 2\nfunction GT.n() end\nGT.sub.other = \"x\"\nlocal gt_a = GT.a\n"),
+    ] },
+    Block { name: "operator-overload", parts: &[
+        p("---@class OP\n---@operator add(OP): OP\n---@operator call(integer): string\n---@overload fun(a: integer): OP\nlocal OP = {}\n---@overload fun(a: string): OP\n---@param a integer\n---@return OP\nfunction newop(a) end\n"),
+        p("---@class OP\n---@operator sub(OP): OP\n---@operator unm: OP\n---@type OP\nlocal o\nlocal o_r = o + o\nlocal o_s = o(1)\nlocal o_t = o - o\nlocal o_n = newop(\"s\")\n"),
+    ] },
+    Block { name: "setmetatable", parts: &[
+        p("---@class MT\nlocal MT = {}\nMT.__index = MT\nfunction MT.new() return setmetatable({}, MT) end\nGMT = setmetatable({ own = 1 }, MT)\n"),
+        p("local mt_obj = setmetatable({}, { __index = GMT, __call = function() end })\nlocal mt_v = mt_obj.own\nGMT2 = setmetatable({}, { __index = GMT })\n"),
+    ] },
+    Block { name: "globals-same-name", parts: &[
+        p("GV = 1\nfunction gfun() return 1 end\nGV2 = GV\n"),
+        p("GV = \"s\"\nfunction gfun() return \"x\" end\nlocal gv_u = GV\nlocal gv_r = gfun()\n"),
+        p("local gv_3 = GV\nGV = true\n"),
+    ] },
+    Block { name: "require", parts: &[
+        p("M.rq_val = 1\nfunction M.rq_fn() return 1 end\n---@class RqT\n---@field rq_f integer\nM.rq_t = {} ---@type RqT\n"),
+        p("local rq = require(\"{m0}\")\nlocal rq_v = rq.rq_val\nlocal rq_f = rq.rq_fn()\nlocal rq_t = rq.rq_t\nM.re_export = rq\nM.re_val = rq.rq_val\n"),
+        p("local rq2 = require(\"{m1}\")\nlocal rq2_v = rq2.re_export.rq_val\nlocal rq2_w = rq2.re_val\n"),
+    ] },
+    Block { name: "meta-module", parts: &[
+        Part { head: "---@meta\n", body: "---@class MetaC\n---@field mf integer\nMetaG = {}\nfunction MetaG.mfn() end\n" },
+        p("---@module \"{m0}\"\nlocal mm\nlocal mm_v = mm\n---@type MetaC\nlocal mc\nlocal mc_f = mc.mf\nMetaG.extra = 1\n"),
+    ] },
+    Block { name: "namespace-using", parts: &[
+        Part { head: "---@namespace NS1\n", body: "---@class NC\n---@field nf integer\n---@alias NAl string\n" },
+        Part { head: "---@using NS1\n", body: "---@type NC\nlocal nc\nlocal nc_f = nc.nf\n---@type NS1.NC\nlocal nc2\n---@class NSub: NC\n" },
+        Part { head: "---@namespace NS1\n", body: "---@class (partial) NC\n---@field ng string\n" },
+    ] },
+    Block { name: "labels-goto", parts: &[
+        p("do\n  goto done\n  local lq = 1\n  ::done::\nend\n"),
+        p("for li = 1, 2 do\n  if li then goto continue end\n  ::continue::\nend\n"),
+    ] },
+    Block { name: "diagnostic-comments", parts: &[
+        p("---@diagnostic disable: undefined-global\n---@diagnostic disable-next-line: unused\nlocal unused_1 = undefined_g1\n---@type NoSuchType1\nlocal nst\n"),
+        p("---@diagnostic disable-next-line\nlocal dx2 = undefined_g2\n---@diagnostic enable: undefined-global\n---@diagnostic disable: unused\n---@class Dup1\n---@class Dup1\n"),
+    ] },
+    Block { name: "string-literal-see", parts: &[
+        p("---@param x \"lit_a\"|\"lit_b\"\nfunction strfun(x) end\n---@see strfun\n---@see MC#x\nlocal function seefn() end\n---@alias LitAl \"lit_a\"|\"lit_c\"\n"),
+        p("strfun(\"lit_a\")\n---@see strfun\nlocal s2 = \"lit_b\"\n---@type LitAl\nlocal la = \"lit_c\"\n---@param y \"lit_a\"\nlocal function strfun2(y) end\n"),
+    ] },
+    Block { name: "local-type-bindings", parts: &[
+        p("---@type integer\nlocal ti = 1\nlocal tj = ti\n---@type fun(a: integer): string\nlocal tf\n---@class LT\n---@field lf integer\n---@return LT\nfunction mklt() end\n"),
+        p("---@type LT\nlocal lt\nlocal lt_f = lt.lf\nlocal lt2 = mklt()\nlocal lt2_f = lt2.lf\n---@type { a: integer, b: LT }\nlocal obj\n---@type table<string, LT>\nlocal tbl\n---@type [integer, LT]\nlocal tup\n---@cast lt LT?\n"),
+    ] },
+    Block { name: "properties", parts: &[
+        p("---@class PR\nPR = {}\n---@deprecated use other\n---@nodiscard\n---@async\n---@return integer\nfunction PR.dep() end\n---@private\nPR.priv = 1\n---@version >5.1\n---@source file:///x.c#10\nfunction PR.ver() end\n"),
+        p("--- description of more\n---@protected\nfunction PR.more() end\n---@deprecated\nPR.old = 1\nlocal pr_d = PR.dep()\nlocal pr_o = PR.old\n---@readonly\nPR.ro = 1\n"),
+    ] },
+    Block { name: "closures-and-calls", parts: &[
+        p("---@param cb fun(a: integer): string\nfunction takes_cb(cb) end\n---@generic T\n---@param f fun(): T\n---@return T\nfunction run(f) return f() end\nlocal function lf1() return 1 end\nlocal lf2 = function() return lf1() end\n"),
+        p("takes_cb(function(a) return \"s\" end)\nlocal r1 = run(function() return 1 end)\nlocal function lf3() return r1 end\nlocal r2 = run(lf3)\n"),
+    ] },
+    Block { name: "inherit-across-files", parts: &[
+        p("---@class IBase\n---@field ib integer\nIBase = {}\nfunction IBase:base_m() return self.ib end\n"),
+        p("---@class IDer: IBase\n---@field id_ string\nIDer = {}\nfunction IDer:der_m() return self:base_m() end\n---@type IDer\nlocal ider\nlocal ider_b = ider.ib\n"),
+        p("---@class IDer2: IDer\n---@type IDer2\nlocal ider2\nlocal ider2_b = ider2.ib\nlocal ider2_m = ider2:der_m()\n"),
+    ] },
+    Block { name: "self-return-types", parts: &[
+        p("local SR = {}\nfunction SR.make() return { v = 1, w = { z = 2 } } end\nfunction SR.tbl() return SR end\nM.sr = SR\nGSR = SR\n"),
+        p("local sr_t = GSR.make()\nlocal sr_v = sr_t.v\nlocal sr_z = sr_t.w.z\nlocal sr_s = GSR.tbl()\nGSR.added = sr_t\n"),
+    ] },
+];
+
+// --------------------------------------------------------------------------------------------------- generation
+#[derive(Clone, Copy)]
+struct Rng(u64);
+impl Rng {
+    fn next(&mut self) -> u64 {
+        // splitmix64
+        self.0 = self.0.wrapping_add(0x9E37_79B9_7F4A_7C15);
+        let mut z = self.0;
+        z = (z ^ (z >> 30)).wrapping_mul(0xBF58_476D_1CE4_E5B9);
+        z = (z ^ (z >> 27)).wrapping_mul(0x94D0_49BB_1331_11EB);
+        z ^ (z >> 31)
+    }
+    fn below(&mut self, n: usize) -> usize {
+        (self.next() % n as u64) as usize
+    }
+}
+
+#[derive(Clone, Copy, PartialEq, Debug)]
+enum Mode {
+    /// all files handed to the vfs, then one `update_index` over all ids in the given order (workspace load)
+    Batch,
+    /// `update_file_by_uri` one file after the other (files opened one by one)
+    Seq,
+}
+
+struct Case {
+    k: usize,
+    mode: Mode,
+    /// (file name, module name, text) in analysis order
+    files: Vec<(String, String, String)>,
+    /// description: block name -> role placement
+    desc: String,
+}
+
+/// place `blocks[i]`'s roles on the files given by `placement[i]` (one file slot per role), build the texts
+fn build_case(k: usize, mode: Mode, n_files: usize, chosen: &[(usize, Vec<usize>)], order: &[usize]) -> Case {
+    let mut heads: Vec<Vec<&'static str>> = vec![Vec::new(); n_files];
+    let mut bodies: Vec<String> = vec![String::new(); n_files];
+    let mut desc = Vec::new();
+    for (b, placement) in chosen {
+        let block = &BLOCKS[*b];
+        let mut d = format!("{}[", block.name);
+        for (role, slot) in placement.iter().enumerate() {
+            let part = &block.parts[role];
+            if !part.head.is_empty() {
+                let kind = part.head.split_whitespace().next().unwrap_or("");
+                // one file-level tag of a kind per file
+                if !heads[*slot].iter().any(|h| h.starts_with(kind)) {
+                    heads[*slot].push(part.head);
+                }
+            }
+            let mut body = part.body.to_string();
+            for r in 0..3 {
+                let slot_r = placement.get(r).copied().unwrap_or(placement[0]);
+                body = body.replace(&format!("{{m{r}}}"), MODULE_NAMES[slot_r]);
+            }
+            bodies[*slot].push_str(&body);
+            d.push_str(&format!("{}{}", if role > 0 { "," } else { "" }, FILE_NAMES[*slot]));
+        }
+        d.push(']');
+        desc.push(d);
+    }
+    let mut files = Vec::new();
+    for &slot in order {
+        let mut text = String::new();
+        for h in &heads[slot] {
+            text.push_str(h);
+        }
+        text.push_str("local M = {}\n");
+        text.push_str(&bodies[slot]);
+        text.push_str("return M\n");
+        files.push((FILE_NAMES[slot].to_string(), MODULE_NAMES[slot].to_string(), text));
+    }
+    Case { k, mode, files, desc: format!("{mode:?} order={:?} {}", order.iter().map(|s| FILE_NAMES[*s]).collect::<Vec<_>>(), desc.join(" ")) }
+}
+
+/// number of systematic (seed-independent) cases: every block alone x (roles on files in declaration order | reversed)
+/// x (analysis order forward | backward) x (Batch | Seq)
+fn n_systematic() -> usize {
+    BLOCKS.len() * 8
+}
+
+fn gen_case(seed: u64, k: usize) -> Case {
+    if k < n_systematic() {
+        let b = k / 8;
+        let v = k % 8;
+        let roles = BLOCKS[b].parts.len();
+        let n_files = roles.max(2);
+        let mut placement: Vec<usize> = (0..roles).collect();
+        if v & 1 == 1 {
+            placement.reverse();
+            // keep slot numbers within n_files and distinct
+            let shift = n_files - roles;
+            for s in placement.iter_mut() {
+                *s += shift;
+            }
+        }
+        let mut order: Vec<usize> = (0..n_files).collect();
+        if v & 2 == 2 {
+            order.reverse();
+        }
+        let mode = if v & 4 == 4 { Mode::Seq } else { Mode::Batch };
+        return build_case(k, mode, n_files, &[(b, placement)], &order);
+    }
+    let mut rng = Rng(seed.wrapping_mul(0x2545_F491_4F6C_DD1D) ^ (k as u64).wrapping_mul(0xD6E8_FEB8_6659_FD93));
+    rng.next();
+    let n_files = 2 + rng.below(3);
+    let n_blocks = 2 + rng.below(4);
+    let mut chosen: Vec<(usize, Vec<usize>)> = Vec::new();
+    for _ in 0..n_blocks {
+        let b = rng.below(BLOCKS.len());
+        if chosen.iter().any(|(c, _)| *c == b) {
+            continue;
+        }
+        let roles = BLOCKS[b].parts.len().min(n_files);
+        // random injection of roles into file slots
+        let mut slots: Vec<usize> = (0..n_files).collect();
+        for i in (1..slots.len()).rev() {
+            slots.swap(i, rng.below(i + 1));
+        }
+        slots.truncate(roles);
+        chosen.push((b, slots));
+    }
+    let mut order: Vec<usize> = (0..n_files).collect();
+    for i in (1..order.len()).rev() {
+        order.swap(i, rng.below(i + 1));
+    }
+    let mode = if rng.below(3) == 0 { Mode::Seq } else { Mode::Batch };
+    build_case(k, mode, n_files, &chosen, &order)
+}
+
+// ------------------------------------------------------------------------------------------------------ canon
+/// `X {` / `id: N,` / `}<rest>`  ->  `X(N)<rest>`; returns (depth, trimmed line)
+fn collapse(dump: &str) -> Vec<(usize, String)> {
+    let lines: Vec<&str> = dump.lines().collect();
+    let mut out = Vec::with_capacity(lines.len());
+    let mut i = 0;
+    while i < lines.len() {
+        let l = lines[i];
+        let indent = l.len() - l.trim_start().len();
+        if i + 2 < lines.len() && l.ends_with(" {") {
+            let mid = lines[i + 1].trim();
+            let last = lines[i + 2];
+            let last_indent = last.len() - last.trim_start().len();
+            if let Some(num) = mid.strip_prefix("id: ").and_then(|r| r.strip_suffix(',')) {
+                if !num.is_empty() && num.bytes().all(|b| b.is_ascii_digit()) && last_indent == indent && last.trim_start().starts_with('}') {
+                    let rest = &last.trim_start()[1..];
+                    out.push((indent / 4, format!("{}({}){}", &l.trim_start()[..l.trim_start().len() - 2], num, rest)));
+                    i += 3;
+                    continue;
+                }
+            }
+        }
+        out.push((indent / 4, l.trim_start().to_string()));
+        i += 1;
+    }
+    out
+}
+
+fn is_ident(s: &str) -> bool {
+    !s.is_empty() && s.bytes().all(|b| b.is_ascii_alphanumeric() || b == b'_')
+}
+
+/// One segment of a group: an opener (or leaf) line and what it encloses.  `collection` = the opener is a bare
+/// `{` / `[` (map, set, list: the children are independent facts), not `Name {` / `Name(` (one value).
+#[derive(Clone, Debug)]
+struct Seg {
+    head: String,
+    kids: Vec<Group>,
+    collection: bool,
+}
+/// A leaf line, a `field: value`, a list element, or a map entry (`<key lines> }: <value lines>` = several segments).
+#[derive(Clone, Debug)]
+struct Group {
+    segs: Vec<Seg>,
+}
+
+fn is_opener(t: &str) -> bool {
+    t.ends_with('{') || t.ends_with('(') || t.ends_with('[')
+}
+fn is_collection_opener(t: &str) -> bool {
+    if t.ends_with('[') {
+        return true;
+    }
+    if let Some(pre) = t.strip_suffix('{') {
+        let pre = pre.trim_end();
+        return pre.is_empty() || pre.ends_with(':');
+    }
+    false
+}
+
+fn parse_groups(lines: &[(usize, String)], pos: &mut usize, depth: usize) -> Vec<Group> {
+    let mut out = Vec::new();
+    while *pos < lines.len() && lines[*pos].0 == depth {
+        let mut head = lines[*pos].1.clone();
+        *pos += 1;
+        let mut g = Group { segs: Vec::new() };
+        loop {
+            if is_opener(&head) {
+                let collection = is_collection_opener(&head);
+                let kids = parse_groups(lines, pos, depth + 1);
+                g.segs.push(Seg { head, kids, collection });
+                if *pos < lines.len() && lines[*pos].0 == depth && lines[*pos].1.starts_with(['}', ')', ']']) {
+                    let c = lines[*pos].1.clone();
+                    *pos += 1;
+                    if c[1..].starts_with(": ") {
+                        head = c; // `}: value` -- the entry goes on
+                        continue;
+                    }
+                }
+                break;
+            } else {
+                g.segs.push(Seg { head, kids: Vec::new(), collection: false });
+                break;
+            }
+        }
+        out.push(g);
+    }
+    out
+}
+
+impl Group {
+    fn label(&self) -> Option<&str> {
+        let h = &self.segs[0].head;
+        let pos = h.find(": ")?;
+        if is_ident(&h[..pos]) { Some(&h[..pos]) } else { None }
+    }
+    /// canonical single-line text (children of collections sorted)
+    fn canon(&self) -> String {
+        let mut s = String::new();
+        for seg in &self.segs {
+            if !s.is_empty() {
+                s.push(' ');
+            }
+            s.push_str(&seg.head);
+            if !seg.kids.is_empty() {
+                let mut ks: Vec<String> = seg.kids.iter().map(|k| k.canon()).collect();
+                if seg.collection {
+                    ks.sort();
+                }
+                for k in ks {
+                    s.push(' ');
+                    s.push_str(&k);
+                }
+                s.push_str(" ^");
+            }
+        }
+        s
+    }
+    /// what identifies the group among its siblings: the key of a map entry / the name of a field
+    fn key(&self) -> Option<String> {
+        if self.segs.len() > 1 {
+            let last = self.segs.len() - 1;
+            let keypart = Group { segs: self.segs[..last].to_vec() };
+            return Some(keypart.canon());
+        }
+        let h = &self.segs[0].head;
+        h.find(": ").map(|p| h[..p].to_string())
+    }
+    fn any_line(&self, f: &dyn Fn(&str) -> bool) -> bool {
+        self.segs.iter().any(|s| f(&s.head) || s.kids.iter().any(|k| k.any_line(f)))
+    }
+}
+
+fn mask_numbers(line: &str, name: &str) -> String {
+    let pat = format!("{name}(");
+    let mut out = String::new();
+    let mut rest = line;
+    while let Some(p) = rest.find(&pat) {
+        out.push_str(&rest[..p + pat.len()]);
+        let after = &rest[p + pat.len()..];
+        let end = after.find(')').unwrap_or(0);
+        out.push('#');
+        rest = &after[end..];
+    }
+    out.push_str(rest);
+    out
+}
+
+/// Drops / masks what legitimately differs (see the header); `rename` = (new id, old id) of the re-added file.
+/// every id the removed file has had -> `FileId(dead)`: what other files still say about the removed file (stale
+/// dependents) compares equal from round to round, only accumulation shows
+fn unify_dead(kids: &mut [Group], dead: &[FileId]) {
+    for g in kids.iter_mut() {
+        for seg in g.segs.iter_mut() {
+            for d in dead {
+                let tok = format!("FileId({})", d.id);
+                if seg.head.contains(&tok) {
+                    seg.head = seg.head.replace(&tok, "FileId(dead)");
+                }
+            }
+            unify_dead(&mut seg.kids, dead);
+        }
+    }
+}
+
+fn normalise(kids: &mut Vec<Group>, path: &str, rename: Option<(u32, u32)>, ignore: &[String]) {
+    kids.retain(|g| {
+        let sub = match g.label() {
+            Some(l) if path.is_empty() => l.to_string(),
+            Some(l) => format!("{path}.{l}"),
+            None => path.to_string(),
+        };
+        if sub == "vfs.node_cache" {
+            return false;
+        }
+        if path == "vfs.file_data" && g.segs[0].head == "None," {
+            return false;
+        }
+        if path == "modules_index" && g.segs[0].head.starts_with("id_counter: ") {
+            return false;
+        }
+        if path == "property_index" && g.segs[0].head.starts_with("id_count: ") {
+            return false;
+        }
+        !(g.label().is_some() && ignore.iter().any(|s| sub.contains(s.as_str())))
+    });
+    for g in kids.iter_mut() {
+        let sub = match g.label() {
+            Some(l) if path.is_empty() => l.to_string(),
+            Some(l) => format!("{path}.{l}"),
+            None => path.to_string(),
+        };
+        for seg in g.segs.iter_mut() {
+            let mut line = mask_numbers(&mask_numbers(&seg.head, "LuaPropertyId"), "ModuleNodeId");
+            if let Some((new, old)) = rename {
+                line = line.replace(&format!("FileId({new})"), &format!("FileId({old})"));
+                if path == "vfs.file_id_map" {
+                    if let Some(pre) = line.strip_suffix(&format!(": {new},")) {
+                        line = format!("{pre}: {old},");
+                    }
+                }
+                if path == "vfs.file_path_map" {
+                    if let Some(post) = line.strip_prefix(&format!("{new}: ")) {
+                        line = format!("{old}: {post}");
+                    }
+                }
+            }
+            seg.head = line;
+            normalise(&mut seg.kids, &sub, rename, ignore);
+        }
+    }
+}
+
+/// the database dump as a tree: children of the root = the indexes
+fn snap(a: &EmmyLuaAnalysis, rename: Option<(u32, u32)>, ignore: &[String]) -> Vec<Group> {
+    let lines = collapse(&format!("{:#?}", a.compilation.get_db()));
+    let mut pos = 0;
+    let mut root = parse_groups(&lines, &mut pos, 0);
+    if root.len() != 1 || pos != lines.len() || root[0].segs.len() != 1 {
+        setup_failed("the Debug dump of DbIndex does not have the expected shape");
+    }
+    let mut kids = std::mem::take(&mut root[0].segs[0].kids);
+    normalise(&mut kids, "", rename, ignore);
+    kids
+}
+
+// -------------------------------------------------------------------------------------------------- violations
+#[derive(Clone, Copy, PartialEq, Debug)]
+enum Class {
+    /// state the removed file contributed that survives its removal, or state of other files destroyed by it
+    Leak,
+    /// a fact that belongs to a file that is still present and mentions the removed file: stays until that file is
+    /// analysed again (`remove_file_by_uri` does not re-analyse dependents)
+    StaleDependent,
+    /// RESTORE only: the re-added file's state differs from the one the batch analysis produced (stale dependents that
+    /// accumulate, order-dependent inference); leaks proper are caught by TRACE / NEVER-HAD / GROWTH
+    RestoreDiff,
+}
+
+struct Violation {
+    oracle: &'static str,
+    class: Class,
+    removed: String,
+    /// `index.field`
+    field: String,
+    /// deeper named fields
+    sub: String,
+    /// the leaked Debug line (TRACE) or the differing entry (`- before` / `+ after`)
+    what: String,
+    detail: String,
+}
+fn mask_digits(s: &str) -> String {
+    let mut out = String::new();
+    let mut prev_digit = false;
+    for c in s.chars() {
+        if c.is_ascii_digit() {
+            if !prev_digit {
+                out.push('#');
+            }
+            prev_digit = true;
+        } else {
+            out.push(c);
+            prev_digit = false;
+        }
+    }
+    out
+}
+impl Violation {
+    /// what `--known` lines are matched against: `<oracle> <index.field> <entry text with every number masked as #>`
+    fn signature(&self) -> String {
+        format!("{} {} {}", self.oracle, self.field, mask_digits(&self.what))
+    }
+}
+
+struct Ids {
+    /// every id the removed file has had
+    dead: Vec<String>,
+    /// ids of files that are in the analysis
+    present: Vec<String>,
+}
+impl Ids {
+    fn new(dead: &[FileId], present: &[FileId]) -> Ids {
+        Ids { dead: dead.iter().map(|f| format!("FileId({})", f.id)).collect(), present: present.iter().map(|f| format!("FileId({})", f.id)).collect() }
+    }
+    fn has_dead(&self, s: &str) -> bool {
+        self.dead.iter().any(|t| s.contains(t.as_str()))
+    }
+    fn has_present(&self, s: &str) -> bool {
+        self.present.iter().any(|t| s.contains(t.as_str()))
+    }
+}
+
+fn short(s: &str, n: usize) -> String {
+    if s.len() <= n {
+        return s.to_string();
+    }
+    let mut end = n;
+    while !s.is_char_boundary(end) {
+        end -= 1;
+    }
+    format!("{}...", &s[..end])
+}
+
+fn split_path(path: &[String]) -> (String, String) {
+    let field = path.iter().take(2).cloned().collect::<Vec<_>>().join(".");
+    let sub = path.iter().skip(2).cloned().collect::<Vec<_>>().join(".");
+    (field, sub)
+}
+
+/// Attribution.  A line that names the removed file is a STALE DEPENDENT when the fact it is part of belongs to a file
+/// that is still present: the enclosing entry's key, its value's other fields, or the other half of the map entry
+/// name a present file.  The sibling *elements* of a list / set / map never count (they are independent facts), and an
+/// entry filed directly under the removed file's own id is that file's, whatever it mentions.  Everything else is a
+/// LEAK.  `attributed` = what the ancestors already established; `is_entry` = `g` is a direct entry of `index.field`.
+struct Walk<'a> {
+    ids: &'a Ids,
+    removed_path: &'a str,
+    removed_id: u32,
+}
+
+fn present_in(g: &Group, ids: &Ids) -> bool {
+    g.any_line(&|l| ids.has_present(l))
+}
+
+impl Walk<'_> {
+    /// calls `hit(group, line, class)` for every line of `g` (recursively) that names the removed file
+    fn visit<'g>(&self, g: &'g Group, dotted: &str, attributed: bool, is_entry: bool, under_dead_key: bool, hit: &mut dyn FnMut(&'g Group, &'g str, Class)) {
+        let dead_key = under_dead_key || (is_entry && g.segs[0].head.starts_with("FileId(") && self.ids.has_dead(&g.segs[0].head));
+        let heads = g.segs.iter().any(|s| self.ids.has_present(&s.head));
+        for (si, seg) in g.segs.iter().enumerate() {
+            let other_segs = g.segs.iter().enumerate().any(|(j, s)| j != si && s.kids.iter().any(|k| present_in(k, self.ids)));
+            let kid_present: Vec<bool> = if seg.collection { Vec::new() } else { seg.kids.iter().map(|k| present_in(k, self.ids)).collect() };
+            let by_bare = (dotted == "vfs.file_id_map" && seg.head.ends_with(&format!(": {},", self.removed_id))) || (dotted == "vfs.file_path_map" && seg.head.starts_with(&format!("{}: ", self.removed_id)));
+            if self.ids.has_dead(&seg.head) || (!self.removed_path.is_empty() && seg.head.contains(self.removed_path)) || by_bare {
+                let here = attributed || heads || other_segs || kid_present.iter().any(|p| *p);
+                hit(g, &seg.head, if !dead_key && here { Class::StaleDependent } else { Class::Leak });
+            }
+            for (ki, kid) in seg.kids.iter().enumerate() {
+                let siblings = kid_present.iter().enumerate().any(|(j, p)| j != ki && *p);
+                self.visit(kid, dotted, attributed || heads || other_segs || siblings, false, dead_key, hit);
+            }
+        }
+    }
+}
+
+/// TRACE: every line of the dump that still names the removed file
+fn trace(tree: &[Group], ids: &Ids, name: &str, id: FileId, out: &mut Vec<Violation>) {
+    let removed_path = format!("{ROOT}/{name}");
+    let w = Walk { ids, removed_path: &removed_path, removed_id: id.id };
+    let removed = format!("{name} (id {})", id.id);
+    for index in tree {
+        let Some(index_name) = index.label() else { continue };
+        for field in index.segs.iter().flat_map(|s| s.kids.iter()) {
+            let Some(field_name) = field.label() else { continue };
+            let dotted = format!("{index_name}.{field_name}");
+            // the entries of the field (the field itself when it is not a collection)
+            let entries: Vec<&Group> = if field.segs.iter().any(|s| s.collection) { field.segs.iter().flat_map(|s| s.kids.iter()).collect() } else { vec![field] };
+            for e in entries {
+                w.visit(e, &dotted, false, true, false, &mut |_, line, class| {
+                    out.push(Violation { oracle: "TRACE", class, removed: removed.clone(), field: dotted.clone(), sub: String::new(), what: format!("{line} in {}", short(&e.canon(), 360)), detail: String::from("after remove_file_by_uri the dump still names the removed file") });
+                });
+            }
+        }
+    }
+}
+
+struct DiffCtx<'a> {
+    /// keys of the entries the walk is inside of (below the field)
+    keys: std::cell::RefCell<Vec<String>>,
+    oracle: &'static str,
+    removed: String,
+    what: &'a str,
+    ids: &'a Ids,
+}
+
+fn report_diff(cx: &DiffCtx, path: &[String], attributed: bool, before: Option<&Group>, after: Option<&Group>, out: &mut Vec<Violation>) {
+    // the class of a difference = the class of the lines naming the removed file in what is there now; a difference
+    // that names no removed file (state of other files destroyed or changed) is a leak
+    let (mut leak, mut stale) = (false, false);
+    if let Some(a) = after {
+        let w = Walk { ids: cx.ids, removed_path: "", removed_id: u32::MAX };
+        w.visit(a, "", attributed, path.len() == 2 && cx.keys.borrow().is_empty(), false, &mut |_, _, class| if class == Class::Leak { leak = true } else { stale = true });
+    }
+    let class = if cx.oracle == "RESTORE" { Class::RestoreDiff } else if stale && !leak { Class::StaleDependent } else { Class::Leak };
+    let (field, sub) = split_path(path);
+    let mut what = String::new();
+    if !cx.keys.borrow().is_empty() {
+        what.push_str(&format!("[under {}] ", cx.keys.borrow().join(" > ")));
+    }
+    if let Some(b) = before {
+        what.push_str(&format!("- {}", short(&b.canon(), 300)));
+    }
+    if let Some(a) = after {
+        if before.is_some() {
+            what.push_str("   ");
+        }
+        what.push_str(&format!("+ {}", short(&a.canon(), 300)));
+    }
+    out.push(Violation { oracle: cx.oracle, class, removed: cx.removed.clone(), field, sub, what, detail: cx.what.to_string() });
+}
+
+/// what pairs two differing siblings: the key of a map entry / the name of a field, else the opener line
+fn pair_key(g: &Group) -> String {
+    g.key().unwrap_or_else(|| g.segs[0].head.clone())
+}
+
+/// structural difference of two sibling lists (multiset for collections), descending into entries with the same key.
+/// `base` = attribution from the ancestors; in a value (not a collection) the other fields count too.
+fn diff_kids(cx: &DiffCtx, a: &[Group], b: &[Group], collection: bool, path: &mut Vec<String>, base: bool, out: &mut Vec<Violation>) {
+    let ca: Vec<String> = a.iter().map(|g| g.canon()).collect();
+    let cb: Vec<String> = b.iter().map(|g| g.canon()).collect();
+    let mut used_b = vec![false; b.len()];
+    let mut rest_a = Vec::new();
+    for (i, c) in ca.iter().enumerate() {
+        match (0..b.len()).find(|j| !used_b[*j] && cb[*j] == *c) {
+            Some(j) => used_b[j] = true,
+            None => rest_a.push(i),
+        }
+    }
+    let mut rest_b: Vec<usize> = (0..b.len()).filter(|j| !used_b[*j]).collect();
+    let b_present: Vec<bool> = if collection { Vec::new() } else { b.iter().map(|g| present_in(g, cx.ids)).collect() };
+    let attr = |j: usize| base || b_present.iter().enumerate().any(|(x, p)| x != j && *p);
+    for i in rest_a.clone() {
+        let key = pair_key(&a[i]);
+        // a partner: the same key, and no other candidate with that key on either side
+        let cands: Vec<usize> = rest_b.iter().copied().filter(|j| pair_key(&b[*j]) == key).collect();
+        let rivals = rest_a.iter().filter(|x| pair_key(&a[**x]) == key).count();
+        if cands.len() == 1 && rivals == 1 {
+            let j = cands[0];
+            rest_b.retain(|x| *x != j);
+            diff_group(cx, &a[i], &b[j], path, attr(j), out);
+        } else {
+            report_diff(cx, path, base, Some(&a[i]), None, out);
+        }
+    }
+    for j in rest_b {
+        let pushed = if let Some(l) = b[j].label() { path.push(l.to_string()); true } else { false };
+        report_diff(cx, path, attr(j), None, Some(&b[j]), out);
+        if pushed {
+            path.pop();
+        }
+    }
+}
+
+fn diff_group(cx: &DiffCtx, a: &Group, b: &Group, path: &mut Vec<String>, attributed: bool, out: &mut Vec<Violation>) {
+    let pushed = if let Some(l) = b.label() { path.push(l.to_string()); true } else { false };
+    let same_shape = a.segs.len() == b.segs.len() && a.segs.iter().zip(&b.segs).all(|(x, y)| x.head == y.head);
+    if !same_shape || a.segs.iter().all(|s| s.kids.is_empty()) {
+        report_diff(cx, path, attributed, Some(a), Some(b), out);
+    } else {
+        let inside_field = path.len() >= 2;
+        let keyed = inside_field && !(pushed && path.len() == 2);
+        if keyed {
+            cx.keys.borrow_mut().push(short(&pair_key(b), 120));
+        }
+        let heads = b.segs.iter().any(|s| cx.ids.has_present(&s.head));
+        for (si, (sa, sb)) in a.segs.iter().zip(&b.segs).enumerate() {
+            let other_segs = b.segs.iter().enumerate().any(|(j, s)| j != si && s.kids.iter().any(|k| present_in(k, cx.ids)));
+            diff_kids(cx, &sa.kids, &sb.kids, sb.collection || !inside_field, path, inside_field && (attributed || heads || other_segs), out);
+        }
+        if keyed {
+            cx.keys.borrow_mut().pop();
+        }
+    }
+    if pushed {
+        path.pop();
+    }
+}
+
+fn compare(cx: &DiffCtx, before: &[Group], after: &[Group], out: &mut Vec<Violation>) -> bool {
+    let n = out.len();
+    let mut path = Vec::new();
+    diff_kids(cx, before, after, true, &mut path, false, out);
+    out.len() > n
+}
+
+// --------------------------------------------------------------------------------------------------- scenario
+macro_rules! uri {
+    ($name:expr) => {
+        match file_path_to_uri(&PathBuf::from(format!("{ROOT}/{}", $name))) {
+            Some(u) => u,
+            None => setup_failed(&format!("no uri for {}", $name)),
+        }
+    };
+}
+
+fn setup_failed(why: &str) -> ! {
+    println!("SETUP-FAILED {why}");
+    std::process::exit(2)
+}
+
+/// new analysis, default config, main workspace, the given files analysed in the given order
+fn fresh(files: &[&(String, String, String)], mode: Mode) -> (EmmyLuaAnalysis, Vec<FileId>) {
     let mut a = EmmyLuaAnalysis::new();
     a.update_config(Arc::new(Emmyrc::default()));
-    a.add_main_workspace(PathBuf::from("/vp_c10t"));
-    let e = format!("{:#?}", a.compilation.get_db());
-    std::fs::write("/tmp/c10t_empty.txt", &e).unwrap();
-    let uri = file_path_to_uri(&PathBuf::from("/vp_c10t/a.lua")).unwrap();
-    let f = a.update_file_by_uri(&uri, Some("---@class A: B\n---@field x integer\nlocal M = {}\nfunction M.f() end\nG = 1\nreturn M\n".to_string()));
-    println!("{f:?}");
-    let e = format!("{:#?}", a.compilation.get_db());
-    std::fs::write("/tmp/c10t_one.txt", &e).unwrap();
-    a.remove_file_by_uri(&uri);
-    let e = format!("{:#?}", a.compilation.get_db());
-    std::fs::write("/tmp/c10t_removed.txt", &e).unwrap();
+    a.add_main_workspace(PathBuf::from(ROOT));
+    let mut ids = Vec::new();
+    match mode {
+        Mode::Batch => {
+            // what update_files_by_uri does, with a fixed order of the ids (it goes through a std HashSet)
+            for (name, _, text) in files {
+                ids.push(a.compilation.get_db_mut().get_vfs_mut().set_file_content(&uri!(name), Some(text.clone())));
+            }
+            a.compilation.remove_index(ids.clone());
+            a.compilation.update_index(ids.clone());
+        }
+        Mode::Seq => {
+            for (name, _, text) in files {
+                match a.update_file_by_uri(&uri!(name), Some(text.clone())) {
+                    Some(id) => ids.push(id),
+                    None => setup_failed(&format!("no file id for {name}")),
+                }
+            }
+        }
+    }
+    for (i, (name, module, _)) in files.iter().enumerate() {
+        match a.compilation.get_db().get_module_index().get_module(ids[i]) {
+            Some(info) if info.full_module_name == *module => {}
+            other => setup_failed(&format!("{name} registered as module {:?}, expected {module}", other.map(|m| m.full_module_name.clone()))),
+        }
+    }
+    (a, ids)
+}
+
+fn add(a: &mut EmmyLuaAnalysis, name: &str, text: &str) -> FileId {
+    match a.update_file_by_uri(&uri!(name), Some(text.to_string())) {
+        Some(id) => id,
+        None => setup_failed("no file id"),
+    }
+}
+fn remove(a: &mut EmmyLuaAnalysis, name: &str, id: FileId) {
+    if a.remove_file_by_uri(&uri!(name)) != Some(id) {
+        setup_failed(&format!("remove_file_by_uri({name}) did not return the id the file was added under"));
+    }
+}
+
+/// (removals whose stale dependents were re-analysed, of which: everything gone afterwards)
+static REANALYSED: std::sync::atomic::AtomicUsize = std::sync::atomic::AtomicUsize::new(0);
+static REANALYSED_CLEAN: std::sync::atomic::AtomicUsize = std::sync::atomic::AtomicUsize::new(0);
+fn reanalysed_clean(clean: bool) {
+    REANALYSED.fetch_add(1, std::sync::atomic::Ordering::Relaxed);
+    if clean {
+        REANALYSED_CLEAN.fetch_add(1, std::sync::atomic::Ordering::Relaxed);
+    }
+}
+
+fn run_case(case: &Case, ignore: &[String]) -> Vec<Violation> {
+    let mut out = Vec::new();
+    let all: Vec<&(String, String, String)> = case.files.iter().collect();
+    for fi in 0..case.files.len() {
+        let (name, _, text) = &case.files[fi];
+        let first = out.len();
+        // ---- NEVER-HAD: the workspace without F; add F; remove F
+        let others: Vec<&(String, String, String)> = case.files.iter().enumerate().filter(|(i, _)| *i != fi).map(|(_, f)| f).collect();
+        let (mut a, other_ids) = fresh(&others, case.mode);
+        let t0 = snap(&a, None, ignore);
+        let id = add(&mut a, name, text);
+        remove(&mut a, name, id);
+        let t1 = snap(&a, None, ignore);
+        let ids = Ids::new(&[id], &other_ids);
+        trace(&t1, &ids, name, id, &mut out);
+        let cx = DiffCtx { keys: Default::default(), oracle: "NEVER-HAD", removed: format!("{name} (id {})", id.id), what: "workspace without the file -> add it -> remove it, against the dump before adding it", ids: &ids };
+        compare(&cx, &t0, &t1, &mut out);
+        drop(a);
+
+        // ---- full workspace: remove F, TRACE; then 5 x (add F [first time: RESTORE]; remove F, TRACE, GROWTH)
+        let (mut a, all_ids) = fresh(&all, case.mode);
+        let id0 = all_ids[fi];
+        let other_ids: Vec<FileId> = all_ids.iter().copied().filter(|i| *i != id0).collect();
+        let s0 = snap(&a, None, ignore);
+        remove(&mut a, name, id0);
+        let s1 = snap(&a, None, ignore);
+        let mut dead = vec![id0];
+        trace(&s1, &Ids::new(&dead, &other_ids), name, id0, &mut out);
+        for round in 0..5 {
+            let id = add(&mut a, name, text);
+            if round == 0 && case.mode == Mode::Batch {
+                let s2 = snap(&a, Some((id.id, id0.id)), ignore);
+                let ids = Ids::new(&[], &all_ids);
+                let cx = DiffCtx { keys: Default::default(), oracle: "RESTORE", removed: format!("{name} (id {} -> {})", id0.id, id.id), what: "all files analysed -> remove it -> add it again, against the dump before the removal (new id renamed to the old one)", ids: &ids };
+                compare(&cx, &s0, &s2, &mut out);
+            }
+            remove(&mut a, name, id);
+            dead.push(id);
+            if round != 0 && round != 4 {
+                continue;
+            }
+            let s3 = snap(&a, None, ignore);
+            let ids = Ids::new(&dead, &other_ids);
+            trace(&s3, &ids, name, id, &mut out);
+            let (mut s1u, mut s3u) = (s1.clone(), s3);
+            unify_dead(&mut s1u, &dead);
+            unify_dead(&mut s3u, &dead);
+            let ids = Ids { dead: vec!["FileId(dead)".to_string()], present: ids.present };
+            let what = format!("all files analysed -> remove it -> {} x (add it; remove it), against the dump after the first removal", round + 1);
+            let cx = DiffCtx { keys: Default::default(), oracle: "GROWTH", removed: format!("{name} (id {})", id.id), what: &what, ids: &ids };
+            if compare(&cx, &s1u, &s3u, &mut out) {
+                break;
+            }
+        }
+        // ---- a stale dependent must go away when its owner is analysed again: every remaining file re-submitted
+        // (same text, same id), three passes (a file may have re-read another one's stale fact); what still names
+        // the removed file then is nobody's dependent fact -> leak
+        if out[first..].iter().any(|v| v.class == Class::StaleDependent) {
+            for _ in 0..3 {
+                for (j, (other, _, other_text)) in case.files.iter().enumerate() {
+                    if j != fi && add(&mut a, other, other_text) != all_ids[j] {
+                        setup_failed("re-submitting a file changed its id");
+                    }
+                }
+            }
+            let s4 = snap(&a, None, ignore);
+            let mut again = Vec::new();
+            trace(&s4, &Ids::new(&dead, &other_ids), name, *dead.last().unwrap(), &mut again);
+            // (lines that were reported as leaks before are not repeated)
+            let reported: Vec<String> = out[first..].iter().filter(|v| v.oracle == "TRACE" && v.class == Class::Leak).map(|v| v.signature()).collect();
+            for mut v in again.into_iter().filter(|v| !reported.contains(&v.signature())) {
+                v.oracle = "TRACE-REANALYSED";
+                v.class = Class::Leak;
+                v.detail = String::from("still there after every remaining file was analysed again (3 passes)");
+                out.push(v);
+            }
+            reanalysed_clean(out[first..].iter().filter(|v| v.oracle == "TRACE-REANALYSED").count() == 0);
+        }
+    }
+    out
+}
+
+// ------------------------------------------------------------------------------------------------------ output
+/// `--known <file>`: one pinned finding per line, `<oracle|*> <index.field> <substring of the masked entry text>`;
+/// `#` lines are comments.  A violation whose signature matches is printed as KNOWN and does not fail the search.
+struct Known {
+    oracle: String,
+    field: String,
+    text: String,
+}
+fn load_known(path: &str) -> Vec<Known> {
+    let Ok(s) = std::fs::read_to_string(path) else { setup_failed(&format!("cannot read the known-findings file {path}")) };
+    let mut out = Vec::new();
+    for l in s.lines() {
+        let l = l.trim();
+        if l.is_empty() || l.starts_with('#') {
+            continue;
+        }
+        let mut it = l.splitn(3, ' ');
+        let (Some(o), Some(f)) = (it.next(), it.next()) else { setup_failed(&format!("malformed known line: {l}")) };
+        out.push(Known { oracle: o.to_string(), field: f.to_string(), text: it.next().unwrap_or("").trim().to_string() });
+    }
+    out
+}
+fn is_known(v: &Violation, known: &[Known]) -> bool {
+    let masked = mask_digits(&v.what);
+    known.iter().any(|k| (k.oracle == "*" || k.oracle == v.oracle) && k.field == v.field && masked.contains(&mask_digits(&k.text)))
+}
+
+struct Opts {
+    ignore: Vec<String>,
+    known: Vec<Known>,
+    strict: bool,
+    all: bool,
+}
+
+/// prints the violations of one case; returns (failing, known, stale) counts
+fn report(case: &Case, seed: u64, vs: &[Violation], opts: &Opts, seen: &mut Vec<String>, first_only: bool) -> (usize, usize, usize) {
+    let (mut failing, mut known, mut stale) = (0, 0, 0);
+    for v in vs {
+        let tag = if v.class == Class::StaleDependent && !opts.strict {
+            stale += 1;
+            "STALE-DEPENDENT"
+        } else if v.class == Class::RestoreDiff && !opts.strict {
+            stale += 1;
+            "RESTORE-DIFF"
+        } else if is_known(v, &opts.known) {
+            known += 1;
+            "KNOWN"
+        } else {
+            failing += 1;
+            "FOUND"
+        };
+        let sig = format!("{tag} {}", v.signature());
+        if seen.contains(&sig) {
+            continue;
+        }
+        if tag != "FOUND" || !first_only || failing == 1 {
+            seen.push(sig);
+            println!("{tag} case={} seed={seed} oracle={} class={:?} removed={} field={}{} :: `{}` :: {} :: workspace: {}", case.k, v.oracle, v.class, v.removed, v.field, if v.sub.is_empty() { String::new() } else { format!(" sub={}", v.sub) }, v.what, v.detail, case.desc);
+        }
+    }
+    (failing, known, stale)
+}
+
+fn print_workspace(case: &Case) {
+    for (name, module, text) in &case.files {
+        println!("  --- {ROOT}/{name} (module {module})");
+        for l in text.lines() {
+            println!("  | {l}");
+        }
+    }
+}
+
+fn run_one(case: &Case, opts: &Opts) -> Vec<Violation> {
+    match std::panic::catch_unwind(|| run_case(case, &opts.ignore)) {
+        Ok(vs) => vs,
+        Err(_) => setup_failed(&format!("the analysis panicked in case {} ({})", case.k, case.desc)),
+    }
+}
+
+fn dir_case(dir: &str, mode: Mode) -> Case {
+    // a hand-written workspace: every *.lua directly under <dir> and <dir>/lib, analysed in name order
+    let dir = PathBuf::from(dir);
+    let mut files = Vec::new();
+    for sub in ["", "lib"] {
+        let mut names: Vec<PathBuf> = match std::fs::read_dir(dir.join(sub)) {
+            Ok(rd) => rd.filter_map(|e| e.ok()).map(|e| e.path()).filter(|p| p.extension().is_some_and(|x| x == "lua")).collect(),
+            Err(_) => continue,
+        };
+        names.sort();
+        for path in names {
+            let stem = path.file_stem().unwrap().to_string_lossy().to_string();
+            let (name, module) = if sub.is_empty() { (format!("{stem}.lua"), stem.clone()) } else { (format!("{sub}/{stem}.lua"), format!("{sub}.{stem}")) };
+            files.push((name, module, std::fs::read_to_string(&path).unwrap_or_default()));
+        }
+    }
+    if files.is_empty() {
+        setup_failed("no .lua files in the given directory");
+    }
+    Case { k: 0, mode, files, desc: format!("{mode:?} files of {}", dir.display()) }
+}
+
+const DEFAULT_COUNT: u64 = 210;
+
+fn main() {
+    std::panic::set_hook(Box::new(|_| {}));
+    let mut args: Vec<String> = std::env::args().skip(1).collect();
+    let mut opts = Opts { ignore: Vec::new(), known: Vec::new(), strict: false, all: false };
+    let mut i = 0;
+    while i < args.len() {
+        match args[i].as_str() {
+            "--ignore" if i + 1 < args.len() => {
+                opts.ignore.push(args[i + 1].clone());
+                args.drain(i..i + 2);
+            }
+            "--known" if i + 1 < args.len() => {
+                opts.known.extend(load_known(&args[i + 1]));
+                args.drain(i..i + 2);
+            }
+            "--strict" => {
+                opts.strict = true;
+                args.remove(i);
+            }
+            "--all" => {
+                opts.all = true;
+                args.remove(i);
+            }
+            _ => i += 1,
+        }
+    }
+    let num = |i: usize, default: u64| -> u64 { args.get(i).and_then(|s| s.parse().ok()).unwrap_or(default) };
+    match args.first().map(|s| s.as_str()) {
+        Some("list") => {
+            for (i, b) in BLOCKS.iter().enumerate() {
+                println!("{i:2} {} ({} roles)", b.name, b.parts.len());
+            }
+        }
+        Some("case") | Some("dir") => {
+            let (case, seed) = if args[0] == "case" {
+                (gen_case(num(2, 1), num(1, 0) as usize), num(2, 1))
+            } else {
+                (dir_case(args.get(1).map(|s| s.as_str()).unwrap_or(""), if args.get(2).map(|s| s.as_str()) == Some("seq") { Mode::Seq } else { Mode::Batch }), 0)
+            };
+            println!("case {} seed {seed}: {}", case.k, case.desc);
+            print_workspace(&case);
+            let vs = run_one(&case, &opts);
+            let (failing, known, stale) = report(&case, seed, &vs, &opts, &mut Vec::new(), false);
+            println!("case {}: {failing} violations, {known} known, {stale} stale-dependent / restore differences", case.k);
+            std::process::exit(if failing > 0 { 1 } else { 0 });
+        }
+        Some("search") | None => {
+            let seed = num(1, 1);
+            let count = num(2, DEFAULT_COUNT) as usize;
+            let mut seen: Vec<String> = Vec::new();
+            let (mut failing, mut known, mut stale, mut removals) = (0usize, 0usize, 0usize, 0usize);
+            for k in 0..count {
+                let case = gen_case(seed, k);
+                let vs = run_one(&case, &opts);
+                removals += case.files.len() * 7;
+                let (f, kn, st) = report(&case, seed, &vs, &opts, &mut seen, !opts.all);
+                failing += f;
+                known += kn;
+                stale += st;
+                if f > 0 && !opts.all {
+                    print_workspace(&case);
+                    std::process::exit(1);
+                }
+            }
+            let re = (REANALYSED.load(std::sync::atomic::Ordering::Relaxed), REANALYSED_CLEAN.load(std::sync::atomic::Ordering::Relaxed));
+            let summary = format!("{count} generated workspaces ({} systematic + {} random, seed {seed}), {removals} removals checked, {} building blocks; {known} known-finding hits, {stale} stale-dependent / restore differences (not failing{}); stale dependents gone after re-analysing the remaining files: {}/{} removals",
+                n_systematic().min(count), count.saturating_sub(n_systematic()), BLOCKS.len(), if opts.strict { "" } else { ": --strict makes them fail" }, re.1, re.0);
+            if failing > 0 {
+                println!("{failing} violations ({} distinct lines printed) among {summary}", seen.iter().filter(|s| s.starts_with("FOUND")).count());
+                std::process::exit(1);
+            }
+            println!("no trace of a removed file, no growth, every re-add restores: {summary}");
+        }
+        Some(other) => {
+            println!("usage: replay search [seed] [count] | case <k> [seed] | dir <dir> [batch|seq] | list   [--known <file>] [--strict] [--all] [--ignore <field>]   (got {other:?})");
+            std::process::exit(2);
+        }
+    }
 }
